@@ -5,9 +5,9 @@ import json, subprocess
 CHECKS = {
  # id: (level, technique, text, note, design_ref)
  "C02": ("exploration",
-         "bounded exhaustive enumeration of transactions x pre-states x batch positions on the real FSM vs reference model",
-         "Every transaction built from 0..2 of 20 predicates and <=2 operations per branch out of 12 (<=2 in total quick, <=3 thorough), on 8 pre-states and at 4 positions of an apply call, is executed on a real fsm.FSM and compared with the model: branch choice, n-th response for n-th operation, state afterwards; read-only transactions also through the Lookup path. Exhaustive inside that alphabet.",
-         "Trusted: refkv transaction semantics (written from the property text), pebble's atomic batch commit for visibility to concurrent readers (durable atomicity is C04's). Chained execution on a live FSM; failures are re-run alone on a fresh FSM.",
+         "bounded exhaustive enumeration of transactions x pre-states x batch positions vs reference model, plus stateless interleaving exploration of updater vs reader at statement granularity",
+         "Every transaction built from 0..2 of 20 predicates and <=2 operations per branch out of 12 (<=2 in total quick, <=3 thorough), on 8 pre-states and at 4 positions of an apply call, executed on a real fsm.FSM and compared with the model (branch choice, n-th response for n-th operation, state afterwards; read-only transactions also through Lookup). Atomic visibility: an updater applying a transaction against a reader doing two full-range lookups with a scheduling point before every statement of the write and read paths (build-overlay instrumentation), all interleavings up to 2 (thorough 3) preemptions: every read equals a state at an entry boundary, never part of a transaction.",
+         "Trusted: refkv transaction semantics; pebble's batch commit is atomic between two scheduling points (durable atomicity is C04's). Chained execution on a live FSM; failures are re-run alone on a fresh FSM.",
          "DESIGN.md section 4, C02"),
  "C03": ("exploration",
          "differential enumeration: every log x every batching cut x interposed sync/reopen/snapshot transfer on real FSMs",
@@ -45,14 +45,14 @@ CHECKS = {
          "Trusted: the classifier (written from the property text); handlers are called directly (no recovery interceptor exists, so a handler panic = process death).",
          "DESIGN.md section 4, C16"),
  "C18": ("exploration",
-         "bounded exhaustive enumeration of message values (all single and paired field settings per type), compressor payload pairs and stream chunkings",
-         "Every message type of the 4 proto packages: empty, every single-field setting to depth 3, every pair, everything-set; registered codec vs fresh and recycled objects and vs the standard protobuf implementation; gzip/snappy/zstd with 39 payloads in every ordered pair and 3 read granularities; snapshot files shipped with every placement of <=2 cuts and every uniform chunk size through snapshot.Writer/Reader, backup.Writer and BackupServer.Restore.",
-         "Trusted: protobuf-go's proto.Equal as equality incl. presence. Pool interleavings under a controlled scheduler are NOT explored (free-running concurrent pass only, which cannot decide).",
+         "bounded exhaustive enumeration of message values, compressor payload pairs and stream chunkings/alignments, plus interleaving exploration of the pooled compressor state under a controlled scheduler",
+         "Every message type of the 4 proto packages: empty, every single-field setting to depth 3, every pair, everything-set; registered codec vs fresh and recycled objects and vs the standard protobuf implementation; gzip/snappy/zstd with 39 payloads in every ordered pair and 3 read granularities; pooled compressor state: sync.Pool replaced (build overlay) by a deterministic pool whose Get/Put are scheduling points, 2 threads x 1-2 round trips, all interleavings up to 2 (thorough 3) preemptions; snapshot files shipped with every placement of <=2 cuts and every uniform chunk size through snapshot.Writer/Reader, backup.Writer and BackupServer.Restore; multi-block snapshot files with block boundaries on every position of a record.",
+         "Trusted: protobuf-go's proto.Equal as equality incl. presence; GC-driven eviction of sync.Pool is not modelled (an evicted object is never reused).",
          "DESIGN.md section 4, C18"),
- "C08": ("exploration",
-         "bounded exhaustive enumeration of histories x formats x receiver states x interposed writes/stop signals, crash-point enumeration of installs, API-level read/install interleavings",
-         "Fidelity matrix over every history of length <= 2 (quick) / <= 3 (thorough) x saver/receiver formats x fresh/stale receiver x writes between prepare and save and from inside save at every output write; stop signal at every read of recover / write of save; crash at every FS operation of histories with installs; install placed before every step of a reader program (unary read, lazy stream pulled message by message).",
-         "Trusted: refkv-free differential oracle (saver state at prepare time); strict MemFS fault model for the crash part. Statement-level preemption inside Lookup is not explored (API granularity).",
+ "C08": ("model_checking",
+         "stateless interleaving exploration (cooperative scheduler, statement-level scheduling points from a build-overlay instrumenter, iterative preemption bounding) of reads vs snapshot install, plus bounded exhaustive fidelity/stop-signal matrices and crash-point enumeration",
+         "Fidelity matrix over every history of length <= 2 (quick) / <= 3 (thorough) x saver/receiver formats x fresh/stale receiver x writes between prepare and save and from inside save at every output write; stop signal at every read of recover / write of save; crash at every FS operation of histories with installs; reads overlapping an install at API granularity (multi-message streams, install before every reader step) and at STATEMENT granularity (reader thread unary/streamed vs installer thread, a scheduling point before every statement of Lookup/lookup/iterate and both recover implementations, all interleavings up to 2 (thorough 3) preemptions): a read returns the old state, the new state or an error, never panics.",
+         "Trusted: strict MemFS fault model; code inside pebble is atomic between two scheduling points. Six recorded findings (D7 family: read holding the pre-install DB handle panics with 'pebble: closed') are listed in known_findings.json; any other signature fails the check.",
          "DESIGN.md section 4, C08"),
  "C13": ("exploration",
          "bounded exhaustive sequence enumeration on the real kv.LFSM vs a CAS-register-map model, all batchings, snapshot round trip",
